@@ -47,6 +47,10 @@ def batch(entry, d, n, m, grid=8):
         # IntervalSage whose m-th call recomputes over a window holding exactly the m rows
         sc = GB.BatchScenario(cls="interval", mode="interval", d=d, n_inner=n, tables="spec", interval=m, storage_len=m,
                               rows=[([F(v) for v in r], y) for r, y in zip(rows, ys)], calls=[(False, True)] * m)
+    elif entry == "many_product":
+        # default mode of an explainer built with a product MarginalImputer: the product game
+        sc = GB.BatchScenario(cls="batch", mode="many", d=d, n_inner=n, tables="spec", imputer_kind="product",
+                              rows=[([F(v) for v in r], y) for r, y in zip(rows, ys)])
     elif entry in ("original_product", "original_foreign"):
         sc = GB.BatchScenario(cls="batch", mode="original", d=d, n_inner=n, tables="spec",
                               rows=[([F(v) for v in r], y) for r, y in zip(rows, ys)],
